@@ -58,3 +58,86 @@ def kernel_crosscheck(ctx, pq):
     ctx.coq_file(path)
     ctx.extra["extraction_vs_kernel"] = {"sampled": len(pq.sample), "of_small_calls": pq.seen,
                                          "commands": sorted({c[0] for c, _ in pq.sample})}
+
+
+# ---------------------------------------------------------------------------------------------
+# crash-proof execution of the real code: cases run in forked workers (common.pmap); a worker records what it
+# would have told the Ctx, the parent replays the record.  A worker that dies (segfault, SIGFPE, abort) or hangs
+# becomes a reported failure of the case it was running, not a dead check.
+# ---------------------------------------------------------------------------------------------
+class RecCtx:
+    """Stand-in for common.Ctx inside a worker: records the calls."""
+
+    def __init__(self, quick, scratch):
+        self.ops = []
+        self._quick = quick
+        self.scratch = scratch
+        self.notes = []
+
+    def quick(self):
+        return self._quick
+
+    def count(self, key, sub):
+        self.ops.append(("count", key, sub))
+
+    def case(self, case, trivial=False, sample_every=0):
+        self.ops.append(("case", case, trivial))
+
+    def correspondence(self, name, case, model_out, impl_out):
+        self.ops.append(("correspondence", name, case, model_out, impl_out))
+        return model_out == impl_out
+
+    def fail(self, cls, case, detail):
+        self.ops.append(("fail", cls, case, detail))
+        return True
+
+
+def replay_ops(ctx, ops):
+    for op in ops:
+        getattr(ctx, op[0])(*op[1:])
+
+
+def run_jobs(ctx, func, jobs, init, split, crash_cls, describe, nproc=4, job_timeout=240):
+    """Run func(job) -> {"ops": [...], "samples": [...]} for every job in forked workers; replay the records in job order.
+    A job whose worker died/hung is split into its single cases (split(job) -> [job...]) which are run again one by one to
+    find the culprit; each culprit (or, if none reproduces, the whole job) is reported with ctx.fail(crash_cls(...), ...)."""
+    samples = []
+    res = C.pmap(func, jobs, init=init, nproc=nproc, job_timeout=job_timeout)
+    for job, r in zip(jobs, res):
+        if isinstance(r, dict) and "__crashed__" in r:
+            subs = split(job)
+            hit = False
+            if len(subs) > 1:
+                rs = C.pmap(func, subs, init=init, nproc=nproc, job_timeout=job_timeout)
+                for sj, sr in zip(subs, rs):
+                    if isinstance(sr, dict) and "__crashed__" in sr:
+                        hit = True
+                        ctx.count("crash", sr["__crashed__"][:60])
+                        ctx.fail(crash_cls(sj, sr), describe(sj), "the real code does not survive this input: %s %s" % (sr["__crashed__"], sr.get("tb", "")[-600:]))
+                    else:
+                        replay_ops(ctx, sr["ops"])
+                        samples += sr.get("samples", [])
+            if not hit:
+                ctx.count("crash", r["__crashed__"][:60])
+                ctx.fail(crash_cls(job, r), describe(job), "the real code does not survive this input%s: %s %s" % (
+                    " (the worker died on this batch; not reproduced when its cases ran one by one)" if len(subs) > 1 else "",
+                    r["__crashed__"], r.get("tb", "")[-600:]))
+        else:
+            replay_ops(ctx, r["ops"])
+            samples += r.get("samples", [])
+    return samples
+
+
+def kernel_crosscheck_samples(ctx, samples, keep=20):
+    """as kernel_crosscheck, for samples collected by workers"""
+    if not samples:
+        return
+    if len(samples) > keep:
+        samples = ctx.rng.sample(samples, keep)
+
+    class _P:
+        pass
+    p = _P()
+    p.sample = samples
+    p.seen = len(samples)
+    kernel_crosscheck(ctx, p)
